@@ -374,6 +374,13 @@ func (s *grpcServer) Write(srv bytestream.ByteStream_WriteServer) error {
 		for {
 			req, err := srv.Recv()
 			if err == io.EOF {
+				if firstIteration {
+					// The client half-closed without sending any request: nothing
+					// will ever write to putResult.
+					recvResult <- status.Error(codes.InvalidArgument,
+						"no WriteRequest received")
+					return
+				}
 				if cmp == casblob.Identity && resp.CommittedSize != size {
 					msg := fmt.Sprintf("Unexpected amount of data read: %d expected: %d",
 						resp.CommittedSize, size)
